@@ -122,6 +122,10 @@ Verdict(o) ==
   LET f == CASE o.kind = "round" -> RoundClauses(o) [] o.kind = "adj" -> AdjClauses(o) [] o.kind = "int" -> IntClauses(o)
              [] o.kind = "qm" -> (IF o.out.t = "arr" THEN QmClauses(o) ELSE <<"formula_failed">>)
              [] o.kind = "fact" -> (IF o.out.t = "arr" THEN FactClauses(o) ELSE <<"formula_failed">>)
+             [] o.kind = "factfrac" ->     \* a negative argument, whole or not, has no factorial: an error, never a value
+                  (IF o.in.x.n < 0
+                   THEN Cl("negative_factorial_must_be_an_error", o.out.t = "err" \/ (o.out.t = "arr" /\ ErrV(o.out.a[1]) /\ ErrV(o.out.a[2])))
+                   ELSE <<>>)
              [] o.kind = "hex" -> (IF o.out.t = "arr" THEN HexClauses(o) ELSE <<"formula_failed">>)
              [] o.kind = "base" -> (IF o.out.t = "arr" THEN BaseClauses(o) ELSE <<"formula_failed">>)
              [] o.kind = "roman" -> (IF o.out.t = "arr" THEN RomanClauses(o) ELSE <<"formula_failed">>)
